@@ -12,6 +12,65 @@ Open Scope N_scope.
 
 Ltac Zify.zify_post_hook ::= Z.div_mod_to_equations.
 
+(* ---------- counting requests (independent of the geometry) ---------- *)
+
+Definition cnt (l : list N) (c : N) : nat := count_occ N.eq_dec l c.
+Definition held (r : reqs) (c : N) : nat := (cnt (rq_queue r) c + cnt (map fst (rq_requested r)) c)%nat.
+Definition one (c' c : N) : nat := if N.eq_dec c' c then 1%nat else 0%nat.
+Lemma cnt_app l1 l2 c : cnt (l1 ++ l2) c = (cnt l1 c + cnt l2 c)%nat.
+Proof. apply count_occ_app. Qed.
+Lemma cnt_cons x l c : cnt (x :: l) c = (one x c + cnt l c)%nat.
+Proof. unfold cnt, one. cbn [count_occ]. destruct (N.eq_dec x c); lia. Qed.
+Lemma remove_swap_perm {A} (p : A -> bool) : forall l x l',
+  remove_swap p l = Some (x, l') -> Permutation l (x :: l') /\ p x = true.
+Proof.
+  induction l as [|y r IH]; intros x l'; cbn [remove_swap]; [discriminate|].
+  destruct (p y) eqn:E.
+  - intros [= <- <-]. split; [|exact E]. constructor.
+    destruct (rev r) as [|lst rr] eqn:Er.
+    + assert (r = []) by (destruct r; [reflexivity|apply (f_equal (@length A)) in Er; rewrite rev_length in Er; discriminate]).
+      subst. constructor.
+    + rewrite <- (rev_involutive r), Er. cbn [rev]. rewrite <- Permutation_cons_append. constructor. apply Permutation_refl.
+  - destruct (remove_swap p r) as [[z r']|] eqn:F; [|discriminate]. intros [= <- <-].
+    destruct (IH z r' eq_refl) as [P Q]. split; [|exact Q].
+    apply perm_trans with (y :: z :: r'); [now constructor|constructor].
+Qed.
+
+Lemma cnt_perm l l' c : Permutation l l' -> cnt l c = cnt l' c.
+Proof. intros P. unfold cnt. induction P; cbn [count_occ]; try destruct (N.eq_dec _ _); try destruct (N.eq_dec _ _); lia. Qed.
+
+Lemma held_rq_del r c' ro r' q rr c :
+  rq_del r c' ro = Some (r', q, rr) ->
+  (held r' c + (if q || rr then one c' c else 0))%nat = held r c.
+Proof.
+  unfold rq_del. destruct (negb (rq_member r c')); [intros [= <- <- <-]; cbn; lia|].
+  destruct (remove_swap (fun e => fst e =? c') (rq_requested r)) as [[x rest]|] eqn:R.
+  - intros [= <- <- <-]. apply remove_swap_perm in R as [P Hx]. apply N.eqb_eq in Hx.
+    unfold held. cbn [rq_queue rq_requested orb].
+    rewrite (cnt_perm (map fst (rq_requested r)) (map fst (x :: rest)) c (Permutation_map fst P)).
+    cbn [map]. rewrite cnt_cons, Hx. lia.
+  - destruct ro; [intros [= <- <- <-]; cbn; lia|].
+    destruct (remove_swap (fun e => e =? c') (rq_queue r)) as [[x rest]|] eqn:Q; [|discriminate].
+    intros [= <- <- <-]. apply remove_swap_perm in Q as [P Hx]. apply N.eqb_eq in Hx.
+    unfold held. cbn [rq_queue rq_requested orb].
+    rewrite (cnt_perm (rq_queue r) (x :: rest) c P), cnt_cons, Hx. lia.
+Qed.
+
+Lemma held_rq_cancel r c' c : held (fst (fst (rq_cancel r c'))) c = held r c.
+Proof.
+  unfold rq_cancel. destruct (negb _); [reflexivity|]. destruct (find _ _) as [[x cancelled]|]; [|reflexivity].
+  cbn [fst]. unfold held. cbn [rq_queue rq_requested]. f_equal. f_equal.
+  rewrite map_map. apply map_ext. intros e. now destruct (fst e =? c').
+Qed.
+
+Lemma held_rq_enqueue r c' c :
+  held (fst (rq_enqueue r c')) c = (held r c + (if snd (rq_enqueue r c') then one c' c else 0))%nat.
+Proof.
+  unfold rq_enqueue. destruct (rq_member r c'); cbn [fst snd]; [lia|].
+  unfold held. cbn [rq_queue rq_requested]. rewrite cnt_app, cnt_cons. cbn. lia.
+Qed.
+
+
 Section Bal.
 Variable g : geo.
 Hypothesis Hcpp : 0 < cpp g.
@@ -22,15 +81,8 @@ Hypothesis H32 : num_pieces g * cpp g <= 4294967296.
 Definition ev_chunks (e : tev) : list N :=
   match e with TDrop i b _ | TData i b _ _ => [i * cpp g + b / ChunkSize] | _ => [] end.
 Definition cev (evs : list tev) : list N := flat_map ev_chunks evs.
-Definition cnt (l : list N) (c : N) : nat := count_occ N.eq_dec l c.
-Definition held (r : reqs) (c : N) : nat := (cnt (rq_queue r) c + cnt (map fst (rq_requested r)) c)%nat.
 Definition bal (a : acc) (c : N) : nat := (held (s_reqs (a_st a)) c + cnt (cev (a_evs a)) c)%nat.
-Definition one (c' c : N) : nat := if N.eq_dec c' c then 1%nat else 0%nat.
 
-Lemma cnt_app l1 l2 c : cnt (l1 ++ l2) c = (cnt l1 c + cnt l2 c)%nat.
-Proof. apply count_occ_app. Qed.
-Lemma cnt_cons x l c : cnt (x :: l) c = (one x c + cnt l c)%nat.
-Proof. unfold cnt, one. cbn [count_occ]. destruct (N.eq_dec x c); lia. Qed.
 Lemma cev_app l1 l2 : cev (l1 ++ l2) = cev l1 ++ cev l2.
 Proof. apply flat_map_app. Qed.
 
@@ -122,55 +174,6 @@ Lemma np_geo a a' : np a' = np a -> geo_ok a -> geo_ok a'.
 Proof. unfold np, geo_ok. intros [= _ _ ->]. auto. Qed.
 
 (* ---------- the request queue ---------- *)
-
-Lemma remove_swap_perm {A} (p : A -> bool) : forall l x l',
-  remove_swap p l = Some (x, l') -> Permutation l (x :: l') /\ p x = true.
-Proof.
-  induction l as [|y r IH]; intros x l'; cbn [remove_swap]; [discriminate|].
-  destruct (p y) eqn:E.
-  - intros [= <- <-]. split; [|exact E]. constructor.
-    destruct (rev r) as [|lst rr] eqn:Er.
-    + assert (r = []) by (destruct r; [reflexivity|apply (f_equal (@length A)) in Er; rewrite rev_length in Er; discriminate]).
-      subst. constructor.
-    + rewrite <- (rev_involutive r), Er. cbn [rev]. rewrite <- Permutation_cons_append. constructor. apply Permutation_refl.
-  - destruct (remove_swap p r) as [[z r']|] eqn:F; [|discriminate]. intros [= <- <-].
-    destruct (IH z r' eq_refl) as [P Q]. split; [|exact Q].
-    apply perm_trans with (y :: z :: r'); [now constructor|constructor].
-Qed.
-
-Lemma cnt_perm l l' c : Permutation l l' -> cnt l c = cnt l' c.
-Proof. intros P. unfold cnt. induction P; cbn [count_occ]; try destruct (N.eq_dec _ _); try destruct (N.eq_dec _ _); lia. Qed.
-
-Lemma held_rq_del r c' ro r' q rr c :
-  rq_del r c' ro = Some (r', q, rr) ->
-  (held r' c + (if q || rr then one c' c else 0))%nat = held r c.
-Proof.
-  unfold rq_del. destruct (negb (rq_member r c')); [intros [= <- <- <-]; cbn; lia|].
-  destruct (remove_swap (fun e => fst e =? c') (rq_requested r)) as [[x rest]|] eqn:R.
-  - intros [= <- <- <-]. apply remove_swap_perm in R as [P Hx]. apply N.eqb_eq in Hx.
-    unfold held. cbn [rq_queue rq_requested orb].
-    rewrite (cnt_perm (map fst (rq_requested r)) (map fst (x :: rest)) c (Permutation_map fst P)).
-    cbn [map]. rewrite cnt_cons, Hx. lia.
-  - destruct ro; [intros [= <- <- <-]; cbn; lia|].
-    destruct (remove_swap (fun e => e =? c') (rq_queue r)) as [[x rest]|] eqn:Q; [|discriminate].
-    intros [= <- <- <-]. apply remove_swap_perm in Q as [P Hx]. apply N.eqb_eq in Hx.
-    unfold held. cbn [rq_queue rq_requested orb].
-    rewrite (cnt_perm (rq_queue r) (x :: rest) c P), cnt_cons, Hx. lia.
-Qed.
-
-Lemma held_rq_cancel r c' c : held (fst (fst (rq_cancel r c'))) c = held r c.
-Proof.
-  unfold rq_cancel. destruct (negb _); [reflexivity|]. destruct (find _ _) as [[x cancelled]|]; [|reflexivity].
-  cbn [fst]. unfold held. cbn [rq_queue rq_requested]. f_equal. f_equal.
-  rewrite map_map. apply map_ext. intros e. now destruct (fst e =? c').
-Qed.
-
-Lemma held_rq_enqueue r c' c :
-  held (fst (rq_enqueue r c')) c = (held r c + (if snd (rq_enqueue r c') then one c' c else 0))%nat.
-Proof.
-  unfold rq_enqueue. destruct (rq_member r c'); cbn [fst snd]; [lia|].
-  unfold held. cbn [rq_queue rq_requested]. rewrite cnt_app, cnt_cons. cbn. lia.
-Qed.
 
 Lemma bal_with_reqs a r c : bal (upd_st a (with_reqs (a_st a) r)) c = (held r c + cnt (cev (a_evs a)) c)%nat.
 Proof. reflexivity. Qed.
